@@ -45,6 +45,16 @@ def P8():
     return C("P8", workers=2, rq=1, calls=[("imap_unordered", "lazy", 3, 1)], required=[FULL])
 
 
+def P9():
+    # first call: all results taken, generator closed at its last yield (not driven to StopIteration); then a full call
+    return C("P9", workers=1, calls=[("imap", "list", 2, 1, "exact"), ("imap", "list", 2, 1)])
+
+
+def P10():
+    return C("P10", kind="factory", quota=2, workers=1, calls=[("imap", "list", 3, 1, "exact"), ("imap_unordered", "list", 2, 1, "exact"),
+                                                                ("imap", "list", 1, 1)])
+
+
 def L1():
     return C("L1", workers=1, calls=[("imap", "lazy", 1, 1)])
 
